@@ -67,6 +67,7 @@ struct DomExec {
   DomExec(const Plan& p, int env, RunResult& r) : plan(p), env_id(env), rr(r) {
     chk = (uint32_t)p.K("chk", CHK_WALK | CHK_LOOKUP | CHK_LEDGER | CHK_ENVDEP);
     seed = (uint64_t)p.K("envseed", 1);
+    walk_all_every = (int)p.K("walk_all_every", 1);
   }
 
   template <class F> void with_doc(Slot& s, F&& f) {
@@ -163,10 +164,21 @@ struct DomExec {
     if (got != want)
       violate("model", site(when), "document differs from model: got " + model::printable(got, 300) + " want " + model::printable(want, 300));
   }
+  // Full walk of EVERY document after every op (cross-document corruption, copy independence). For
+  // throughput the untouched documents are re-walked on a rotating schedule in profiles that do not
+  // ask for CHK_LEDGER (C13 always walks all).
+  int touched_a = -1, touched_b = -1;
   void check_all_docs(const char* when) {
     if (!(chk & CHK_WALK)) return;
-    for (auto& s : slots) if (s.doc) with_doc(s, [&](auto& d) { check_doc(d, s, when); });
+    bool all = (chk & CHK_LEDGER) || walk_all_every <= 1 || (cur_op % walk_all_every) == 0 || cur_op + 1 == (int)plan.ops.size();
+    for (int i = 0; i < NSLOT; i++) {
+      Slot& s = slots[i];
+      if (!s.doc) continue;
+      if (!all && i != touched_a && i != touched_b) continue;
+      with_doc(s, [&](auto& d) { check_doc(d, s, when); });
+    }
   }
+  int walk_all_every = 1;
   template <class N> void check_lookups(N& n, JVal& m, bool may_map) {
     if (m.k != JVal::Obj || !n.IsObject()) return;
     std::vector<std::string> keys;
@@ -286,11 +298,12 @@ struct DomExec {
     for (int t = 0; t < NSLOT && !slots[si].doc; t++) si = (si + 1) % NSLOT;
     Slot& s = slots[si];
     if (!s.doc) return false;
+    touched_a = si; touched_b = -1;
     bool done = false;
     if (k == "DocMove" || k == "DocMoveCtor" || k == "DocSwap") return doc_level(op, s);
     if (k == "DocReset") { del_doc(s); new_doc(s, op.A(1) & 1); ob = "reset"; return true; }
     if (k == "WbNew") { int w = (int)((uint64_t)op.A(0) % NWB); delete wb[w]; wb[w] = op.A(1) < 0 ? new WriteBuffer() : new WriteBuffer((size_t)op.A(1)); ob = "wb"; return true; }
-    if (k == "WbReserve") { int w = (int)((uint64_t)op.A(0) % NWB); wb[w]->Reserve((size_t)((uint64_t)op.A(1) % 3000)); ob = "wbr"; return true; }
+    if (k == "WbReserve") { int w = (int)((uint64_t)op.A(0) % NWB); wb[w]->Reserve(1 + (size_t)((uint64_t)op.A(1) % 3000)); ob = "wbr"; return true; }   // Reserve(0) on an empty buffer is realloc(p, 0): outside C06's statement (debug assert only)
     if (k == "WbUse") {   // the user writes into the buffer between serialisations (reused, non-empty buffer)
       int w = (int)((uint64_t)op.A(0) % NWB);
       size_t cnt = (size_t)((uint64_t)op.A(1) % 200);
@@ -307,6 +320,7 @@ struct DomExec {
       int oi = (int)((uint64_t)op.A(1) % NSLOT);
       for (int t = 0; t < NSLOT && !slots[oi].doc; t++) oi = (oi + 1) % NSLOT;
       Slot& o = slots[oi];
+      touched_b = oi;
       bool copy = (k == "CopyFrom");
       switch (s.flavour) {   // each allocator flavour is compiled in its own translation unit
         case FL_POOL: return pair_op_pool(op, s, o, copy);
@@ -340,6 +354,7 @@ struct DomExec {
     for (int t = 0; t < NSLOT; t++) { int c = (oi + t) % NSLOT; if (&slots[c] != &s && slots[c].doc && slots[c].flavour == s.flavour) { found = c; break; } }
     if (found < 0) return false;
     Slot& o = slots[found];
+    touched_b = found;
     with_doc(s, [&](auto& d) {
       using D = std::remove_reference_t<decltype(d)>;
       D& e = *(D*)o.doc;
@@ -626,7 +641,7 @@ struct DomExec {
     }
     if (k == "PushBackN") {   // bulk growth: capacity 16 -> 24 -> 36 -> 54
       if (m.k != JVal::Arr) return false;
-      size_t cnt = (size_t)((uint64_t)op.A(1) % 48) + 1;
+      size_t cnt = (size_t)((uint64_t)op.A(1) % (plan.K("big", 0) ? 1800 : 48)) + 1;
       for (size_t i = 0; i < cnt; i++) {
         JVal v = (i % 5 == 4) ? JVal::str("e" + std::to_string(i)) : JVal::uint(i * 3 + 1);
         N tmp; build(tmp, v, alloc, bc);
@@ -637,7 +652,7 @@ struct DomExec {
     }
     if (k == "AddMemberN") {
       if (m.k != JVal::Obj) return false;
-      size_t cnt = (size_t)((uint64_t)op.A(1) % 48) + 1;
+      size_t cnt = (size_t)((uint64_t)op.A(1) % (plan.K("big", 0) ? 1800 : 48)) + 1;
       for (size_t i = 0; i < cnt; i++) {
         std::string key = "n" + std::to_string(cur_op) + "_" + std::to_string(i);
         JVal v = (i % 4 == 3) ? JVal::str("v" + std::to_string(i)) : JVal::sint((int64_t)i - 7);
